@@ -175,13 +175,31 @@ func VerifH_C02_history() {
 			st[i].writer = symChoice("writer", nw)
 		}
 	}
+	// C15: a byte-identical retry of an earlier statement (same write_time, same
+	// values), re-executed at any later point on any writer
+	retryOf, retryAfter := -1, -1
+	if symParam("retry", 0) == 1 {
+		retryOf = symChoice("retryof", n)
+		retryAfter = retryOf + symChoice("retryafter", n-retryOf)
+		r := st[retryOf]
+		r.writer = symChoice("retrywriter", nw)
+		r.eff = false
+		st = append(st, r)
+	}
 	syncAt := symChoice("sync", n) // 0 = no intermediate refresh, k = after statement k
 	syncMode := 0
 	if syncAt > 0 && symParam("merger", 0) == 1 {
 		syncMode = symChoice("syncmode", 2) // 0 = everybody refreshes, 1 = a third party merges and commits, nobody refreshes
 	}
-	for i := range st {
+	for i := 0; i < n; i++ {
 		st[i].eff = vExec(w[st[i].writer], st[i])
+		if retryAfter == i {
+			before := vSee(w[st[n].writer])
+			st[n].eff = vExec(w[st[n].writer], st[n])
+			if st[n].writer == st[retryOf].writer && st[retryOf].eff && retryAfter == retryOf {
+				symAssert(vSameVisible(before, vSee(w[st[n].writer])), "immediate-retry-changes-nothing")
+			}
+		}
 		if syncAt == i+1 && i+1 < n {
 			for k := range w {
 				symAssert(w[k].Commit(vCtx) == nil, "commit-ok")
